@@ -210,6 +210,50 @@ def find_calls(fn, name_suffix):
         (isinstance(c.func, ast.Attribute) and c.func.attr == name_suffix) or (isinstance(c.func, ast.Name) and c.func.id == name_suffix))]
 
 
+def stores_every_path(R, fn, loop, qual):
+    """every path through one iteration of the title loop passes a statement that stores the column: create_dataset(t, data=..)
+    or a whole-dataset assignment  <dataset>[:] = <data>  (paths that raise are exempt)"""
+    cfg = pyfacts.PyCFG(fn)
+    head = cfg.of.get(id(loop))
+    R.shape(head is not None, "C18.R2", CF, qual, "the title loop in the CFG")
+    inside = set()
+    for n in cfg.nodes:
+        x = n.node
+        while x is not None:
+            if x is loop and n is not head:
+                inside.add(n.id)
+                break
+            x = getattr(x, "_parent", None)
+    stores = set()
+    for n in cfg.nodes:
+        if n.id not in inside or n.k != "stmt" or n.node is None:
+            continue
+        st = n.node
+        if isinstance(st, ast.Expr) and isinstance(st.value, ast.Call) and isinstance(st.value.func, ast.Attribute) \
+                and st.value.func.attr == "create_dataset" and any(k.arg == "data" for k in st.value.keywords):
+            stores.add(n.id)
+        if isinstance(st, ast.Assign) and isinstance(st.targets[0], ast.Subscript) and src(st.targets[0].slice) in (":", "...", "()"):
+            stores.add(n.id)
+    R.shape(bool(stores), "C18.R2", CF, qual, "a statement that stores a column (create_dataset(.., data=..) or ds[:] = ..)")
+    # can one iteration get from the loop head back to it without passing a store?
+    seen = set()
+    work = [x for x in cfg.g.successors(head.id) if x in inside]
+    leak = False
+    while work:
+        x = work.pop()
+        if x in seen or x in stores:
+            continue
+        seen.add(x)
+        for y in cfg.g.successors(x):
+            if y == head.id:
+                leak = True
+            elif y in inside:
+                work.append(y)
+    R.check(not leak, "C18.R2", CF, loop.lineno, qual, "every path through the title loop stores the column (%d storing statements)" % len(stores),
+            "on some path through the loop body a column is neither created nor overwritten: the file keeps (or lacks) that column's "
+            "data although the call returns normally - e.g. an existing dataset of the same length is left with its old values")
+
+
 def r2(R):
     R.rule("C18.R2", "columnfile HDF5: both writers convert exactly the INTS titles to int64 and everything else to float64, tag "
                      "the group 'peaks'; the reader accepts that tag, reads every dataset and adds it as a column")
@@ -236,6 +280,8 @@ def r2(R):
         loops = [n for n in ast.walk(fn) if isinstance(n, ast.For) and src(n.iter).endswith(".titles")]
         R.check(len(loops) == 1 and not any(isinstance(x, (ast.Break, ast.Continue)) for x in ast.walk(loops[0])), "C18.R2", CF, fn.lineno, qual,
                 "one loop over all titles without early exit", "not every title is written")
+        if len(loops) == 1:
+            stores_every_path(R, fn, loops[0], qual)
     rd = m.func("colfile_from_hdf")
     accepted = [c for c in ast.walk(rd) if isinstance(c, ast.Compare) and "ImageD11_type" in src(c.left) and isinstance(c.ops[0], ast.In)
                 and isinstance(c.comparators[0], (ast.Tuple, ast.List, ast.Set))]
